@@ -34,6 +34,13 @@ type MirEntry struct {
 	Src []string
 }
 
+// MirOverride is one conditional re-assignment of a destination field in a decoder (legacy
+// spellings): when Cond (a ccond term over source paths) holds, Entry replaces the plain entry.
+type MirOverride struct {
+	Cond  string
+	Entry MirEntry
+}
+
 // MirOut is the translation of one conversion function.
 type MirOut struct {
 	Spec       MirSpec
@@ -43,7 +50,7 @@ type MirOut struct {
 	DstLeaves  [][]string
 	Entries    []MirEntry
 	Checks     []string
-	Overrides  []string
+	Overrides  []MirOverride
 	Presets    []string
 	Pos        string
 	SrcFields  []MirField
@@ -114,7 +121,8 @@ type mv struct {
 	t    *MirType
 	b    *mbuild
 	text string
-	gs   []int // guards already applied to this value
+	gs   []int    // guards already applied to this value
+	ast  ast.Expr // k == "cond": the boolean expression a local stands for
 }
 
 type bentry struct {
@@ -156,7 +164,8 @@ func cdPathEq(a, b []string) bool {
 func cdHasPrefix(p, pre []string) bool { return len(p) >= len(pre) && cdPathEq(p[:len(pre)], pre) }
 
 type mguard struct {
-	kind string // IfNotNil | IfNonZero | IfNonEmpty | LenPos
+	kind string // IfNotNil | IfNonZero | IfNonEmpty | LenPos | Cond (path unused, text = ccond term)
+	text string
 	root string
 	path []string
 	id   int
@@ -166,7 +175,7 @@ var mguardSerial int
 
 func newGuard(kind, root string, path []string) mguard {
 	mguardSerial++
-	return mguard{kind, root, path, mguardSerial}
+	return mguard{kind: kind, root: root, path: path, id: mguardSerial}
 }
 
 type mloop struct {
@@ -411,7 +420,18 @@ func (c *mctx) call(x *ast.CallExpr) *mv {
 		op := map[string]string{"crypto.GetSchemeByID": "SchemeByID", "crypto.SchemeFromName": "SchemeFromName"}[fun]
 		n := withOp(v, op, cdParseExtType("*crypto.Scheme"))
 		n.k = "scheme"
-		c.out.Checks = append(c.out.Checks, c.wrapCheck(fmt.Sprintf("ChkScheme %s %s", op, cdCoqPath(v.path))))
+		// the argument may be a destination field that a legacy override re-assigns: the lookup then
+		// sees the overriding source field
+		base := fmt.Sprintf("ChkScheme %s %s", op, cdCoqPath(v.path))
+		if l, err := c.lhs(x.Args[0]); err == nil && l != nil && l.kind == "field" && l.b.isDst {
+			for _, ov := range c.out.Overrides {
+				if cdPathEq(ov.Entry.Dst, l.path) && len(ov.Entry.Ops) == 0 {
+					c.out.Checks = append(c.out.Checks, c.wrapCheck(fmt.Sprintf("ChkIf %s (ChkScheme %s %s)", ov.Cond, op, cdCoqPath(ov.Entry.Src))))
+					base = fmt.Sprintf("ChkIf (CNotC %s) (%s)", ov.Cond, base)
+				}
+			}
+		}
+		c.out.Checks = append(c.out.Checks, c.wrapCheck(base))
 		return n
 	case fun == "NodeFromProto" || fun == "IdentityFromProto":
 		if len(x.Args) == 2 {
@@ -493,6 +513,12 @@ func (c *mctx) applyGuards(v *mv) *mv {
 	}
 	for i := len(c.guards) - 1; i >= 0; i-- {
 		g := c.guards[i]
+		if g.kind == "Cond" {
+			n := *v
+			n.ops = append([]string{"Unknown " + cdCoqString("assignment under a compound condition")}, v.ops...)
+			v = &n
+			continue
+		}
 		if g.root != v.root || g.kind == "LenPos" {
 			continue
 		}
